@@ -384,6 +384,27 @@ def dispatchC16 : List Str → Option (List Str)
               | .ok (some (.text _)) => some ["some".toList, "text".toList]
         | _ => some ["bad-request".toList]
       | _ => some ["bad-request".toList]
+    else if cmd == "c16.pfind".toList then
+      -- c16.pfind <remote> <base> =<name> <+kind|-> <+child|-> <+child kind|-> <link 0|1> json
+      --   -> importerr | err <class> | none | some <class key> <name> <url>      (link = 1: with convert_link's fall-back)
+      match args with
+      | rem :: url :: nm :: kd :: ch :: ck :: lk :: r =>
+        match decJson r with
+        | some (doc, []) =>
+          match importDoc (baseOf rem url) doc with
+          | .error _ => some ["importerr".toList]
+          | .ok os =>
+            let res := if lk == ['1'] then xConvertLink os (nm.drop 1) (optField kd) (optField ch) (optField ck)
+                       else xProjectFind os (nm.drop 1) (optField kd) (optField ch) (optField ck)
+            match res with
+            | .error .valueError => some ["err".toList, "ValueError".toList]
+            | .error .typeError => some ["err".toList, "TypeError".toList]
+            | .error .attrError => some ["err".toList, "AttributeError".toList]
+            | .ok none => some ["none".toList]
+            | .ok (some (.node cls n u _ _ _)) => some ["some".toList, cls, renderJ n, renderJ u]
+            | .ok (some (.text _)) => some ["some".toList, "text".toList]
+        | _ => some ["bad-request".toList]
+      | _ => some ["bad-request".toList]
     else if cmd == "c16.href".toList then
       -- c16.href <output dir> <working dir> <U<context url> | P<path> | N> =<str(get_url()) of the item>  ->  ok <href>
       match args with
